@@ -19,6 +19,10 @@
 //!   ifaces <d> <k> (<ifname> <idx> <ip> <prefix>)*  new OS interface table of d
 //!   browse|browsec <d> <chan> <ty>                  browse / browse_cache, events on channel <chan>
 //!   stopbrowse <d> <ty>
+//!   hold <d> <chan> | release <d> <chan>            the client stops / resumes reading channel <chan>: a held channel is
+//!                                                   not drained (it fills up: capacity 10) unless a loop iteration takes
+//!                                                   longer than 50 ms of real time - the daemon is then taken to be blocked
+//!                                                   in a send on it, and the client "reads" after all (no hang)
 //!   dropchan <d> <chan>                             the client drops the receiver of channel <chan> (the daemon's
 //!                                                   sends on it fail from now on; nothing is observed on it any more)
 //!   resolve <d> <chan> <host> <none|some ms>        resolve_hostname
@@ -160,11 +164,17 @@ struct World {
     idle: Vec<u64>,
     /// dense polling: `run` additionally steps every daemon at every multiple of this many ms
     dense: u64,
+    /// channels the client does not read at the moment
+    held: Vec<(usize, u64)>,
 }
 
 fn drain(chans: &mut Vec<(usize, u64, Chan, bool)>, out: &mut Vec<String>) {
+    drain_except(chans, out, &[]);
+}
+
+fn drain_except(chans: &mut Vec<(usize, u64, Chan, bool)>, out: &mut Vec<String>, held: &[(usize, u64)]) {
     for (d, id, ch, closed) in chans.iter_mut() {
-        if *closed {
+        if *closed || held.contains(&(*d, *id)) {
             continue;
         }
         loop {
@@ -215,7 +225,15 @@ impl World {
         let mut evs: Vec<String> = Vec::new();
         let so = {
             let chans = &mut self.chans;
-            self.sim.step(d, &mut || drain(chans, &mut evs))
+            let held = self.held.clone();
+            let t0 = std::time::Instant::now();
+            self.sim.step(d, &mut || {
+                if t0.elapsed() < std::time::Duration::from_millis(50) {
+                    drain_except(chans, &mut evs, &held)
+                } else {
+                    drain(chans, &mut evs)
+                }
+            })
         };
         self.pending_rx[d] = false;
         let wake = if so.ended.is_some() { None } else { so.wake };
@@ -425,6 +443,7 @@ fn run_script(cmds: &[String], dense: u64) -> Option<String> {
         links: vec![],
         ifaces: vec![],
         out: vec![],
+        held: Vec::new(),
         drop_n: 0,
         dup_n: 0,
         pending_rx: vec![],
@@ -503,6 +522,17 @@ fn run_script(cmds: &[String], dense: u64) -> Option<String> {
                 w.pending_rx[d] = true;
             }
             "quiet" => w.quiet = t.boolean()?,
+            "hold" => {
+                let d = t.nat()? as usize;
+                let ch = t.nat()?;
+                w.held.push((d, ch));
+            }
+            "release" => {
+                let d = t.nat()? as usize;
+                let ch = t.nat()?;
+                w.held.retain(|x| *x != (d, ch));
+                drain(&mut w.chans, &mut w.out);
+            }
             "dropchan" => {
                 let d = t.nat()? as usize;
                 let ch = t.nat()?;
